@@ -3,6 +3,7 @@ package props
 import (
 	"fmt"
 	"go/token"
+	"strings"
 
 	"verif/third_party/xtools/go/ssa"
 
@@ -438,6 +439,32 @@ func watcherRules(p *core.Prog, r *core.Run, id string) {
 						m := in.Call.Method.Name()
 						okUse = m == "Done" || m == "Err" || m == "Deadline" || m == "Value"
 						what = "call " + m
+						// what the context says is used here and now: nothing of it is
+						// kept in the Conn for later
+						var kept func(v ssa.Value, depth int) bool
+						kept = func(v ssa.Value, depth int) bool {
+							refs := v.Referrers()
+							if refs == nil || depth > 3 {
+								return false
+							}
+							for _, ref := range *refs {
+								switch x := ref.(type) {
+								case *ssa.Extract:
+									if kept(x, depth+1) {
+										return true
+									}
+								case *ssa.Store:
+									if fa, isFA := x.Addr.(*ssa.FieldAddr); isFA && x.Val == v && strings.HasSuffix(deref2(fa.X.Type()).String(), "ech.Conn") {
+										return true
+									}
+								}
+							}
+							return false
+						}
+						if okUse && m != "Done" && kept(in, 0) {
+							okUse = false
+							what = "call " + m + ", result stored in the Conn"
+						}
 					} else {
 						what = "call " + p.X(in).Name
 					}
